@@ -31,6 +31,8 @@
 (*   "refit_if_unfit"  the scorer is refitted only if not yet fitted      *)
 (*   "update_replaces" update replaces the training data                  *)
 (*   "keep_on_set"     set_params keeps the fitted state                  *)
+(*   "cached_by_index" a result is reused when the input has the INDEX of  *)
+(*                     the previous input (seeded changes C08-d, C10-e)    *)
 (*                                                                         *)
 (* A parameter set ("p1", "p2") is a COMPLETE configuration: set_params   *)
 (* only sets the keys it is given, so the replay's two parameter sets of  *)
@@ -43,8 +45,9 @@ EXTENDS Common, TLC, Json
 CONSTANTS MaxLen, Sharing, Tunes, Leak, Emit, NSlices, Slice, EmitLen
 
 Dets     == {"d1", "d2"}
-Data     == {"A", "B", "C", "A2"}            \* A: 12x1, B: 16x2, C: 9x1 (disjoint index), A2: 12x1 overlapping A's index
+Data     == {"A", "B", "C", "A2"}            \* A: 12x1, B: 16x2, C: 9x1 (labels 8..16), A2: 12x1 with exactly A's index, other values
 Cols(ds) == IF ds = "B" THEN 2 ELSE 1
+IndexOf(ds) == IF ds \in {"A", "A2"} THEN "range0_12" ELSE ds      \* A and A2 carry the same index, the others their own
 ParamSets == {"p1", "p2"}
 Private(d) == IF d = "d1" THEN "c1" ELSE "c2"
 Costs    == {"c0", "c1", "c2"}
@@ -132,7 +135,8 @@ CallBody(m, d, a, c, seen, computed) ==
          /\ UNCHANGED <<scores, costData, lastFit, userFit>>
     ELSE /\ costData' = [costData EXCEPT ![c] = seen]
          /\ lastFit' = [lastFit EXCEPT ![c] = <<a>>]
-         /\ IF m = "transform_scores" /\ Leak = "cached_scores" /\ scores[d] # None
+         /\ IF \/ (m = "transform_scores" /\ Leak = "cached_scores" /\ scores[d] # None)
+               \/ (Leak = "cached_by_index" /\ scores[d] # None /\ Len(scores[d].arg) = 1 /\ IndexOf(scores[d].arg[1]) = IndexOf(a))
             THEN ret' = [scores[d] EXCEPT !.m = m] /\ scores' = scores
             ELSE ret' = computed /\ scores' = [scores EXCEPT ![d] = computed]
          /\ exp' = (IF fitted[d] THEN Term(m, d, train[d], <<a>>) ELSE NotFitted)
